@@ -99,6 +99,9 @@ def run_test(env, t, n, spec, stats, journal):
         return None
 
     from hypothesis import given, settings, seed, HealthCheck, Phase
+    import hypothesis.internal.conjecture.engine as _eng
+    # bound the time spent shrinking (a shrink budget, not an oracle): the unshrunk case is already a valid replay
+    _eng.MAX_SHRINKING_SECONDS = 25 if env.tier == "quick" else 120
     sd = core.derive_seed(spec["seed"], spec["prop"], t.name, spec["worker"], spec["cfg"])
 
     @seed(sd)
